@@ -125,9 +125,9 @@ func dumpStore(st stypes.KVStore) []kvPair {
 }
 
 type c16 struct {
-	run  *ev.Run
-	mu   sync.Mutex
-	eval int64
+	run   *ev.Run
+	mu    sync.Mutex
+	eval  int64
 	kinds map[string]int64
 }
 
@@ -158,16 +158,16 @@ func prefixBoundary(p []byte) [][]byte {
 		out = append(out, b)
 	}
 	cat := func(a []byte, b ...byte) []byte { return append(append([]byte{}, a...), b...) }
-	add(cat(p))          // the prefix itself (exposed as the empty key)
-	add(cat(p, 0x00))    // first proper extension
-	add(cat(p, 'k'))     // middle
-	add(cat(p, 0xFF))    // last one-byte extension
+	add(cat(p))       // the prefix itself (exposed as the empty key)
+	add(cat(p, 0x00)) // first proper extension
+	add(cat(p, 'k'))  // middle
+	add(cat(p, 0xFF)) // last one-byte extension
 	add(cat(p, 0xFF, 0xFF))
 	if e := stypes.PrefixEndBytes(p); e != nil {
 		add(e) // first key after the prefix range
 	}
 	if len(p) > 0 {
-		add(cat(p[:len(p)-1]))                 // shorter (not prefixed)
+		add(cat(p[:len(p)-1])) // shorter (not prefixed)
 		if p[len(p)-1] > 0 {
 			pred := cat(p)
 			pred[len(pred)-1]--
